@@ -32,7 +32,7 @@ ASSUMPTIONS = [
 
 @st.composite
 def cases(draw, tier):
-    if draw(st.integers(0, 19)) == 0:
+    if draw(st.integers(0, 7)) == 0:
         # hundreds / thousands of rows, random / sorted / in blocks of 64 or 1024 identical rows (a recipe)
         spec = draw(Q.large_specs(["count"]))
         spec["rma"] = draw(st.sampled_from(["nan", ["tuple", 0], "plain"]))
